@@ -2113,7 +2113,8 @@ class unyt_array(np.ndarray):
                     out.units = Unit("", registry=self.units.registry)
             elif isinstance(out, tuple):
                 for o, oa in zip(out, out_arr):
-                    if o is None:
+                    if not isinstance(o, unyt_array):
+                        # None or a bare ndarray: nothing to label
                         continue
                     o.units = oa.units
         if mul == 1:
@@ -2217,7 +2218,7 @@ class unyt_array(np.ndarray):
         """
         res_units = self.units * getattr(b, "units", NULL_UNIT)
         ret = self.view(np.ndarray).dot(np.asarray(b), out=out) * res_units
-        if out is not None:
+        if isinstance(out, unyt_array):
             out.units = res_units
         return ret
 
